@@ -40,16 +40,6 @@ Section Spec.
   Definition env_wf (e : env) : Prop :=
     e_typed e = false -> e_upgrade e = None /\ e_eci e = None.
 
-  Definition upgrade_len (e : env) : N := match e_upgrade e with Some (l, _) => l | None => 0 end.
-
-  (** The proposer's extended commit info item fits below max_tx_bytes (otherwise
-      prepare_proposal falls back to an item holding empty bytes). *)
-  Definition eci_fits (e : env) (max_tx_bytes : Z) : Prop :=
-    match e_eci e with
-    | None => True
-    | Some (len, _) => commitments_size (e_typed e) + upgrade_len e + len <= Z.to_N max_tx_bytes
-    end.
-
   (** DESIGN F10: every included transaction passes the construction-time checks in the
       block-start state. *)
   Definition constructible_at_start (s0 : S) (l : list (tx T)) : Prop :=
@@ -93,7 +83,6 @@ Section Spec.
       env_wf e ->
       (mx <= Z.of_N I64_MAX)%Z ->
       prepare exec commit_datas commit_ids e s0 q mx = inl p ->
-      eci_fits e mx ->
       constructible_at_start s0 (p_included p) ->
       process exec construct commit_datas commit_ids ceqb e s0 (p_entries p) = Accept.
 
